@@ -158,7 +158,7 @@ Section Potential.
     apply (is_derive_ext (fun x => plus (- ((x - eo) * s) + 3 / 2 * mu * ((x - eo) * (x - eo))) (Hf x))); [intros; reflexivity|].
     replace (- s + 3 * mu * (e - eo) + Yf e) with (plus (- s + 3 * mu * (e - eo)) (Yf e)) by reflexivity.
     apply @is_derive_plus; [|exact H].
-    auto_derive; [trivial|]. Show.
+    auto_derive; [trivial|field].
   Qed.
 
   (* the stationary point of the incremental potential is its minimiser over admissible eqps >= eo (convex hardening) *)
@@ -184,7 +184,7 @@ Proof.
   intros N. pose proof (flow_direction_props E) as (Ht & Hn). fold N in Ht, Hn. unfold trial_mises. fold N.
   destruct E as [[[[[[[[a0 a1] a2] a3] a4] a5] a6] a7] a8]. destruct N as [[[[[[[[n0 n1] n2] n3] n4] n5] n6] n7] n8].
   unfold axpy9, j2_elastic_deviatoric_free_energy, norm_of_deviator_squared, dev9, dev, deviator, t_trace, ddot, tr9 in *.
-  unfold_num. q2r.
+  cbv beta iota zeta in *. unfold_num. q2r.
   assert (H8 : n8 = - n0 - n4) by lra. subst n8.
   replace (3 / 2) with (n0 * n0 + n1 * n1 + n2 * n2 + n3 * n3 + n4 * n4 + n5 * n5 + n6 * n6 + n7 * n7 + (- n0 - n4) * (- n0 - n4)) by exact Hn.
   field.
@@ -192,13 +192,13 @@ Qed.
 
 (* ---------- hardening laws: flow stress = derivative of the regenerated energy; monotone ---------- *)
 Lemma linear_flow_derive Y0 H e : is_derive (fun x => @h_energy R NumR (Linear Y0 H) x) e (@h_flow R NumR (Linear Y0 H) e).
-Proof. unfold h_energy, h_flow, linear. unfold_num. q2r. auto_derive; [trivial|ring]. Qed.
+Proof. unfold h_energy, h_flow, linear. unfold_num. q2r. auto_derive; [trivial|field]. Qed.
 Lemma linear_flow_monotone Y0 H : 0 <= H -> forall x y, x <= y -> @h_flow R NumR (Linear Y0 H) x <= @h_flow R NumR (Linear Y0 H) y.
 Proof. intros HH x y Hxy. unfold h_flow. unfold_num. nra. Qed.
 
 Lemma voce_flow_derive Y0 Ysat eps0 e : eps0 <> 0 ->
   is_derive (fun x => @h_energy R NumR (Voce Y0 Ysat eps0) x) e (@h_flow R NumR (Voce Y0 Ysat eps0) e).
-Proof. intros He. unfold h_energy, h_flow, voce. unfold_num. q2r. auto_derive; [trivial|field; exact He]. Qed.
+Proof. intros He. unfold h_energy, h_flow, voce. unfold_num. q2r. auto_derive; [trivial|unfold Rdiv; field; exact He]. Qed.
 Lemma voce_flow_monotone Y0 Ysat eps0 : Y0 <= Ysat -> 0 < eps0 ->
   forall x y, x <= y -> @h_flow R NumR (Voce Y0 Ysat eps0) x <= @h_flow R NumR (Voce Y0 Ysat eps0) y.
 Proof.
@@ -207,6 +207,58 @@ Proof.
   { destruct (Req_dec x y) as [->|Hne]; [lra|]. left. apply exp_increasing.
     unfold Rdiv. apply Rmult_lt_compat_r; [apply Rinv_0_lt_compat; exact He|lra]. }
   nra.
+Qed.
+
+Lemma power_flow_derive Y0 n eps0 e : 0 < n -> 0 < eps0 -> 0 < 1 + e / eps0 ->
+  is_derive (fun x => @h_energy R NumR (PowerLaw Y0 n eps0) x) e (@h_flow R NumR (PowerLaw Y0 n eps0) e).
+Proof.
+  intros Hn He Hu. unfold h_energy, h_flow, power_law, npowr. unfold_num. q2r.
+  apply (is_derive_ext_loc (fun x => n * Y0 * eps0 / (1 + n) * (exp ((n + 1) / n * ln (1 + x / eps0)) - 1))).
+  - assert (Hd : 0 < (1 + e / eps0) * eps0 / 2) by (apply Rdiv_lt_0_compat; nra).
+    exists (mkposreal _ Hd). intros x Hx. unfold ball in Hx; simpl in Hx. unfold AbsRing_ball, abs, minus, plus, opp in Hx; simpl in Hx.
+    assert (0 < 1 + x / eps0).
+    { apply Rabs_def2 in Hx. replace (1 + x / eps0) with ((eps0 + x) / eps0) by (field; lra). apply Rdiv_lt_0_compat; [|lra].
+      replace ((1 + e / eps0) * eps0 / 2) with ((eps0 + e) / 2) in Hx by (field; lra). lra. }
+    replace (Reqb (1 + x / eps0) 0) with false by (symmetry; apply Reqb_false; lra). reflexivity.
+  - replace (Reqb (1 + e / eps0) 0) with false by (symmetry; apply Reqb_false; lra).
+    assert (Hu' : 0 < 1 + e * / eps0) by exact Hu.
+    auto_derive; [exact Hu'|].
+    unfold Rdiv.
+    replace ((n + 1) * / n * ln (1 + e * / eps0)) with (ln (1 + e * / eps0) + 1 * / n * ln (1 + e * / eps0)) by (field; lra).
+    rewrite exp_plus, exp_ln by exact Hu'.
+    assert (Hpe : 0 < eps0 + e). { replace (eps0 + e) with ((1 + e * / eps0) * eps0) by (field; lra). nra. }
+    field. repeat split; lra.
+Qed.
+
+Lemma power_flow_monotone Y0 n eps0 : 0 <= Y0 -> 0 < n -> 0 < eps0 ->
+  forall x y, 0 < 1 + x / eps0 -> x <= y -> @h_flow R NumR (PowerLaw Y0 n eps0) x <= @h_flow R NumR (PowerLaw Y0 n eps0) y.
+Proof.
+  intros HY Hn He x y Hx Hxy. unfold h_flow, npowr. unfold_num. q2r.
+  assert (Hy : 0 < 1 + y / eps0).
+  { assert (x / eps0 <= y / eps0); [|lra]. unfold Rdiv. apply Rmult_le_compat_r; [left; apply Rinv_0_lt_compat; exact He|exact Hxy]. }
+  replace (Reqb (1 + x / eps0) 0) with false by (symmetry; apply Reqb_false; lra).
+  replace (Reqb (1 + y / eps0) 0) with false by (symmetry; apply Reqb_false; lra).
+  apply Rmult_le_compat_l; [exact HY|].
+  destruct (Req_dec x y) as [->|Hne]; [lra|]. left. apply exp_increasing.
+  apply Rmult_lt_compat_l; [apply Rdiv_lt_0_compat; lra|]. apply ln_increasing; [exact Hx|].
+  assert (x / eps0 < y / eps0); [|lra]. unfold Rdiv. apply Rmult_lt_compat_r; [apply Rinv_0_lt_compat; exact He|lra].
+Qed.
+
+(* the concrete, rate-independent update (model delta_eqps with the regenerated tolerance constant): irreversibility for any
+   law whose flow stress is non-decreasing beyond the current eqps *)
+Lemma tolY_nonneg (l : @law R) : 0 <= law_Y0 l -> 0 <= @tolY R NumR l.
+Proof. intros H. unfold tolY, c__TOLERANCE. unfold_num. q2r. apply Rmult_le_pos; [|exact H]. lra. Qed.
+
+Theorem delta_eqps_nonneg (l : @law R) mu s eo dt d : 0 < mu -> 0 <= law_Y0 l ->
+  (forall x y, eo <= x -> x <= y -> @h_flow R NumR l x <= @h_flow R NumR l y) ->
+  @delta_eqps R NumR l NoRate mu s eo dt = Some d -> 0 <= d.
+Proof.
+  intros Hmu HY Hm H. unfold delta_eqps in H.
+  refine (delta_nonneg _ _ mu (tolY l) Hmu (tolY_nonneg l HY) s eo d _ H).
+  intros Hy.
+  pose proof (ub_above (fun e : R => nadd (h_flow l e) (k_flow NoRate e eo dt)) mu (tolY l) Hmu (tolY_nonneg l HY) s eo Hy) as Hub.
+  unfold ubR in *. cbn [k_flow] in *. unfold_num. q2r.
+  assert (h_flow l eo <= h_flow l (eo + (s - (h_flow l eo + 0)) / (3 * mu))) by (apply Hm; lra). lra.
 Qed.
 
 (* ---------- isochoric plastic flow ---------- *)
@@ -230,3 +282,15 @@ Section Isochoric.
     replace (D * n0 + D * n4 + D * n8) with (D * (n0 + n4 + n8)) by ring. rewrite Ht, Rmult_0_r, exp_0. ring.
   Qed.
 End Isochoric.
+
+(* ---------- non-vacuity ---------- *)
+Lemma nonvacuous_C09 :
+  (forall x y : R, x <= y -> @h_flow R NumR (Linear 1 2) x <= @h_flow R NumR (Linear 1 2) y) /\
+  (@is_yielding R NumR (fun e => @h_flow R NumR (Linear 1 2) e) (1 / 10) 3 0 = true) /\
+  @delta_eqps_gen R NumR (fun _ => 1) (fun _ => 0) 1 (1 / 10) 1 0 = Some 0.
+Proof.
+  split; [apply linear_flow_monotone; lra|]. split.
+  - unfold is_yielding, h_flow. unfold_num. apply Rltb_true. lra.
+  - unfold delta_eqps_gen, is_yielding. unfold_num. replace (Rltb (1 / 10) (1 - 1)) with false by (symmetry; apply Rltb_false; lra).
+    q2r. reflexivity.
+Qed.
